@@ -474,12 +474,91 @@ class Extractor:
                                'src_node': obj, 'width': P.const(esz), 'width_alts': [P.const(esz)], 'from_vector': (base, tot // esz)}))
         return out
 
+    def range_copy(self, f, R, ptr):
+        """ptr is v.data() / &v[0] of a local std::vector<scalar> v constructed from the iterator range
+        [X.begin(), X.begin() + N) or [X.begin(), X.end()) and never modified afterwards:
+        -> (decl, elem size, poly of N, rendering of X) else None"""
+        m = f.nodes[f.strip(ptr, 'all')]
+        obj = None
+        if m['k'] == 'CXXMemberCallExpr' and m['callee']['name'] == 'data' and m['callee'].get('classq', '').startswith('std::vector'):
+            obj = m.get('obj')
+        elif m['k'] == 'UnaryOperator' and m['op'] == '&':
+            e = f.nodes[f.strip(m['ch'][0], 'all')]
+            if e['k'] == 'CXXOperatorCallExpr' and e.get('op') == '[]' and f.nodes[f.strip(e['args'][1], 'all')].get('cv') == '0':
+                obj = e['args'][0]
+        if obj is None:
+            return None
+        o = f.nodes[f.strip(obj, 'all')]
+        if o['k'] != 'DeclRefExpr' or o['decl'].get('dk') != 'local' or o['decl'].get('isref'):
+            return None
+        d = o['decl']
+        tm = re.match(r'^(?:const )?std::vector<([\w ]+)>$', d.get('type', ''))
+        if not tm or tm.group(1) not in self.ELEM:
+            return None
+        init = local_init(f, d['id'])
+        if init is None:
+            return None
+        # never modified after its construction: only read-only members are called on it
+        for x in f.nodes:
+            if x['k'] == 'DeclRefExpr' and x['decl'].get('id') == d['id'] and x['decl'].get('dk') == 'local':
+                okuse = False
+                for p_ in f.ancestors(x['id']):
+                    pn = f.nodes[p_]
+                    if pn['k'] in ('ImplicitCastExpr', 'ParenExpr', 'MemberExpr'):
+                        continue
+                    if pn['k'] == 'CXXMemberCallExpr' and pn['callee']['name'] in ('data', 'size', 'empty', 'begin', 'end', 'cbegin', 'cend', 'front', 'back', 'at', 'capacity') and \
+                            f.strip(pn.get('obj', -1), 'all') == x['id']:
+                        okuse = True
+                    elif pn['k'] == 'CXXOperatorCallExpr' and pn.get('op') == '[]' and f.strip(pn['args'][0], 'all') == x['id']:
+                        par2 = f.nodes[pn['p']] if 'p' in pn else None
+                        okuse = not (par2 is not None and par2['k'] in ('BinaryOperator', 'CompoundAssignOperator') and par2.get('op', '=').endswith('=') and par2['ch'][0] == pn['id'])
+                    break
+                if not okuse:
+                    return None
+        c = f.nodes[f.strip(init, 'noop')]
+        while c['k'] in ('ExprWithCleanups', 'MaterializeTemporaryExpr', 'CXXBindTemporaryExpr') and c['ch']:
+            c = f.nodes[f.strip(c['ch'][0], 'noop')]
+        if c['k'] not in ('CXXConstructExpr', 'CXXTemporaryObjectExpr'):
+            return None
+        real = [a for a in c.get('args', []) if f.nodes[f.strip(a, 'all')]['k'] != 'CXXDefaultArgExpr']
+        if len(real) != 2:
+            return None
+        b, e = f.nodes[f.strip(real[0], 'all')], f.nodes[f.strip(real[1], 'all')]
+        if not (b['k'] == 'CXXMemberCallExpr' and b['callee']['name'] in ('begin', 'cbegin') and b.get('obj') is not None):
+            return None
+        X = R.render(b['obj'])
+        if e['k'] == 'CXXMemberCallExpr' and e['callee']['name'] in ('end', 'cend') and e.get('obj') is not None and R.render(e['obj']) == X:
+            return d, self.ELEM[tm.group(1)][0], {(X + '.size',): 1}, X
+        if e['k'] == 'CXXOperatorCallExpr' and e.get('op') == '+' and len(e.get('args', [])) == 2:
+            e0 = f.nodes[f.strip(e['args'][0], 'all')]
+            if e0['k'] == 'CXXMemberCallExpr' and e0['callee']['name'] in ('begin', 'cbegin') and e0.get('obj') is not None and R.render(e0['obj']) == X:
+                return d, self.ELEM[tm.group(1)][0], P.poly(f, e['args'][1], R), X
+        return None
+
     def gather_analysis(self, f, R, n, subst, depth):
         """the write call n emits a local buffer that was filled by appends: the tree of those appends
         (each an element-sized write of the appended value) stands for the write when the byte count
         is exactly (number of appended elements) x (element size)"""
         import symlocal
         args = f.call_args(n)
+        rc = self.range_copy(f, R, args[0])
+        if rc is not None:
+            # a local vector<T> built as a copy of N elements of another container and never modified:
+            # the byte count must be N x sizeof(T), else the bytes written straddle the elements
+            import symlocal as _sl
+            d_, esz_, npoly, srcr = rc
+            try:
+                ws_ = [subst_poly(w, subst) for w in _sl.expr_values_at(f, args[1], n['id'])]
+            except _sl.Undecided as e:
+                return {'verdict': 'unknown', 'why': 'byte count cannot be evaluated: %s' % e, 'local': d_['name'], 'esz': esz_}
+            np_ = subst_poly(npoly, subst)
+            out_ = {'local': d_['name'], 'esz': esz_, 'count': P.show(np_), 'width': '/'.join(P.show(w) for w in ws_), 'copy_of': substitute(srcr, subst)}
+            if all(P.equal(w, P.mul(np_, P.const(esz_))) for w in ws_):
+                out_.update(verdict='copy-exact', why='byte count = %s elements x %d' % (P.show(np_), esz_))
+            else:
+                out_.update(verdict='mismatch', why='the buffer holds %s elements of %d bytes (copied from %s) but %s bytes are written: the bytes written are not whole elements' %
+                            (P.show(np_), esz_, out_['copy_of'], out_['width']))
+            return out_
         gl = self.gather_local(f, args[0])
         if gl is None:
             return None
